@@ -282,10 +282,18 @@ func (p *HTTPProxy) ServeHTTP(w http.ResponseWriter, r *http.Request) {
 
 	// write access log
 	if p.Logger != nil {
+		// $request_host is the host the client asked for,
+		// not the one a host= option sent upstream
+		logReq := r
+		if r.Host != requestURL.Host {
+			logReq = new(http.Request)
+			*logReq = *r
+			logReq.Host = requestURL.Host
+		}
 		p.Logger.Log(&logger.Event{
 			Start:   start,
 			End:     end,
-			Request: r,
+			Request: logReq,
 			Response: &http.Response{
 				StatusCode:    rw.code,
 				ContentLength: int64(rw.size),
